@@ -34,12 +34,14 @@ static PDestroyFunc DF[] = { NULL, d1, d2, d3 };
 /* tracking allocator */
 static ppointer t_malloc (psize n) { return malloc (n); }
 static ppointer t_realloc (ppointer p, psize n) { return realloc (p, n); }
+static int quarantine;      /* keep released handle blocks allocated so that a premature release is judged from the trace, not by a crash */
 static void t_free (ppointer p) {
 	int h;
 	if (p) for (h = 1; h < MAXH; h++) if (haddr[h] == p) {
 		haddr[h] = NULL; ensure_fp ();
 		VTM ("\"e\":\"hfree\",\"h\":%d", h);
 		p_atomic_int_inc (&nfreed);
+		if (quarantine) return;
 		break;
 	}
 	free (p);
@@ -84,6 +86,7 @@ int main (int argc, char **argv) {
 	FILE *in; char line[256], op[32]; int a, b; long mainval[MAXK] = { 0 }; PMemVTable vt;
 	if (argc < 3) return 2;
 	base = argv[2];
+	quarantine = getenv ("VERIF_QUARANTINE") != NULL;
 	in = fopen (argv[1], "r"); if (!in) return 2;
 	vtm_init (0);
 	p_libsys_init ();
